@@ -51,6 +51,7 @@ type Tables struct {
 	KCtx    map[string]string
 	KRet    map[string]string
 	KPos    token.Pos
+	Impl    map[string]*ssa.Function // builtin name -> implementing function
 }
 
 // ---------- expectation combinators ----------
@@ -463,9 +464,44 @@ func (c *Ctx) BuildTables(ob *core.Obligation) *Tables {
 			c.Touch(fn)
 		}
 	}
+	// a function that hands its argument list to a shared argument-parsing helper inherits the
+	// helper's sequence
+	for round := 0; round < 3; round++ {
+		for _, fn := range c.P.ModuleFunctions() {
+			if relOfFn(fn) != "internal/interpreter" {
+				continue
+			}
+			if _, ok := t.RBuilt["fn:"+fn.Name()]; ok {
+				continue
+			}
+			for _, ci := range core.Calls(fn) {
+				sc := ci.Common().StaticCallee()
+				if sc == nil || !c.P.InModule(sc) {
+					continue
+				}
+				seq, ok := t.RBuilt["fn:"+sc.Name()]
+				if !ok {
+					continue
+				}
+				passes := false
+				for _, a := range ci.Common().Args {
+					if pa, ok := a.(*ssa.Parameter); ok && pa.Parent() == fn {
+						if sl, ok := pa.Type().Underlying().(*types.Slice); ok && core.IsNamedType(sl.Elem(), core.ModPath+"/internal/interpreter", "Value") {
+							passes = true
+						}
+					}
+				}
+				if passes {
+					t.RBuilt["fn:"+fn.Name()] = seq
+					t.RBuiltP["fn:"+fn.Name()] = t.RBuiltP["fn:"+sc.Name()]
+					c.Touch(fn)
+					break
+				}
+			}
+		}
+	}
 	// dispatch: builtin name constant -> implementing function, per context
-	c.dispatchTable(t, "internal/interpreter", "(*programState).runStatement", "statement")
-	c.dispatchTable(t, "internal/interpreter", "(*programState).handleOrigin", "origin")
+	c.dispatchTables(t)
 	// checker table
 	for _, fn := range c.P.ModuleFunctions() {
 		if relOfFn(fn) != "internal/analysis" {
@@ -569,55 +605,102 @@ func (c *Ctx) requiredTypes(tv ssa.Value, b *ssa.BasicBlock, pc *core.PathConds)
 	return consts, anyEscaped, false, false
 }
 
-// dispatchTable: in the dispatcher function, a comparison of a FnCallIdentifier.Name with a
-// constant selects the block that calls the builtin's implementation.
-func (c *Ctx) dispatchTable(t *Tables, rel, fname, ctx string) {
-	f := c.P.SSAFunc(c.P.LookupFunc(rel, fname))
-	if f == nil {
-		return
-	}
-	c.Touch(f)
-	for _, b := range f.Blocks {
-		iff, ok := b.Instrs[len(b.Instrs)-1].(*ssa.If)
-		if !ok {
+// dispatchTables: anywhere in the interpreter, a comparison of a call's function name
+// (FnCallIdentifier.Name) with a constant selects the block that calls the builtin's
+// implementation (the first module callee that parses arguments). The context is "origin"
+// when the enclosing function yields a Value, "statement" otherwise.
+func (c *Ctx) dispatchTables(t *Tables) {
+	implOf := map[string]*ssa.Function{}
+	for _, f := range c.P.ModuleFunctions() {
+		if relOfFn(f) != "internal/interpreter" {
 			continue
 		}
-		bo, ok := iff.Cond.(*ssa.BinOp)
-		if !ok || bo.Op != token.EQL {
-			continue
-		}
-		name, ok := core.ConstString(bo.Y)
-		if !ok {
-			continue
-		}
-		ld, ok := bo.X.(*ssa.UnOp)
-		if !ok {
-			continue
-		}
-		if fld := core.FieldOf(ld.X); fld == nil || fld.Name() != "Name" {
-			continue
-		}
-		body := b.Succs[0]
-		for _, in := range body.Instrs {
-			call, ok := in.(*ssa.Call)
+		for _, b := range f.Blocks {
+			iff, ok := b.Instrs[len(b.Instrs)-1].(*ssa.If)
 			if !ok {
 				continue
 			}
-			sc := call.Call.StaticCallee()
-			if sc == nil || !c.P.InModule(sc) {
+			bo, ok := iff.Cond.(*ssa.BinOp)
+			if !ok || bo.Op != token.EQL {
 				continue
 			}
-			if seq, ok := t.RBuilt["fn:"+sc.Name()]; ok {
-				t.RBuilt[name] = seq
-				t.RBuiltP[name] = t.RBuiltP["fn:"+sc.Name()]
-				t.RCtx[name] = ctx
-				if ctx == "origin" {
-					t.RRet[name] = c.originReturn(f, body, call)
+			name, ok := core.ConstString(bo.Y)
+			nameVal := bo.X
+			if !ok {
+				name, ok = core.ConstString(bo.X)
+				nameVal = bo.Y
+			}
+			if !ok || !isCallerName(nameVal) {
+				continue
+			}
+			ctx := "statement"
+			if f.Signature.Results().Len() > 0 && core.IsNamedType(f.Signature.Results().At(0).Type(), core.ModPath+"/internal/interpreter", "Value") {
+				ctx = "origin"
+			}
+			body := b.Succs[0]
+			for _, bb := range f.Blocks {
+				if !body.Dominates(bb) {
+					continue
 				}
-				break
+				done := false
+				for _, in := range bb.Instrs {
+					call, ok := in.(*ssa.Call)
+					if !ok {
+						continue
+					}
+					sc := call.Call.StaticCallee()
+					if sc == nil || !c.P.InModule(sc) {
+						continue
+					}
+					if seq, ok := t.RBuilt["fn:"+sc.Name()]; ok {
+						t.RBuilt[name] = seq
+						t.RBuiltP[name] = t.RBuiltP["fn:"+sc.Name()]
+						t.RCtx[name] = ctx
+						implOf[name] = sc
+						if ctx == "origin" {
+							t.RRet[name] = c.originReturn(f, body, call)
+						}
+						c.Touch(f)
+						done = true
+						break
+					}
+				}
+				if done {
+					break
+				}
 			}
 		}
 	}
+	t.Impl = implOf
+}
+
+// isCallerName: v is (a copy of) the Name field of a function-call identifier.
+func isCallerName(v ssa.Value) bool {
+	for i := 0; i < 6; i++ {
+		switch x := v.(type) {
+		case *ssa.UnOp:
+			if fa, ok := x.X.(*ssa.FieldAddr); ok {
+				if f := core.FieldOf(fa); f != nil && f.Name() == "Name" && ownerName(fa) == "FnCallIdentifier" {
+					return true
+				}
+			}
+			if al, ok := x.X.(*ssa.Alloc); ok {
+				if st := onlyStore(al); st != nil {
+					v = st.Val
+					continue
+				}
+			}
+			return false
+		case *ssa.Field:
+			f := core.FieldOf(x)
+			return f != nil && f.Name() == "Name" && ownerOfField(x.X.Type()) == "FnCallIdentifier"
+		case *ssa.Phi:
+			return false
+		default:
+			return false
+		}
+	}
+	return false
 }
 
 // originReturn: the Value type returned by the origin arm: a concrete Value type, or "any"
